@@ -168,6 +168,41 @@ theorem fromString_plain_iff (l : Lit) (hwf : l.WF) (hex : l.ex = none) (hip : l
       · exact l.cexp_ge_of_droplets v hv (l.tdigits_mod10 hwf ht)
     exact fromString_complete l hwf htd hre (by omega) hnn h6 v hv hfit
 
+/-- `ToString` succeeds exactly on the representable amounts -/
+theorem toString_ok_iff (n : Nat) : (∃ s, toText n = .ok s) ↔ n ≤ maxInt64 := by
+  constructor
+  · rintro ⟨s, hs⟩
+    refine Nat.le_of_not_lt fun hgt => ?_
+    rw [toString_large n hgt] at hs; cases hs
+  · intro h
+    obtain ⟨ip, fp, hs, _⟩ := toString_shape n h
+    exact ⟨_, hs⟩
+
+/-- `ToString` never panics -/
+theorem toString_total (n : Nat) (p : String) : toText n ≠ .panic p := by
+  by_cases h : n ≤ maxInt64
+  · obtain ⟨s, hs⟩ := (toString_ok_iff n).2 h
+    rw [hs]; intro e; cases e
+  · rw [toString_large n (by omega)]; intro e; cases e
+
+/-- **the text is a faithful name of the amount**: two amounts with the same text are equal
+(no two balances print alike) -/
+theorem toString_injective (m n : Nat) (s : Bytes) (hm : toText m = .ok s) (hn : toText n = .ok s) :
+    m = n := by
+  have hm' := (toString_ok_iff m).1 ⟨s, hm⟩
+  have hn' := (toString_ok_iff n).1 ⟨s, hn⟩
+  have e1 := toString_fromString m hm' s hm
+  have e2 := toString_fromString n hn' s hn
+  rw [e1] at e2; cases e2; rfl
+
+/-- **canonicalisation**: whatever spelling was accepted, printing the parsed amount gives a text
+that parses back to the same amount (parse ∘ print ∘ parse = parse) -/
+theorem fromString_toString_fromString (s : Bytes) (v : Nat) (h : fromString s = .ok v) :
+    ∃ t, toText v = .ok t ∧ fromString t = .ok v := by
+  obtain ⟨_, _, _, _, _, hfit⟩ := fromString_sound s v h
+  obtain ⟨t, ht⟩ := (toString_ok_iff v).2 hfit
+  exact ⟨t, ht, toString_fromString v hfit t ht⟩
+
 /-! ### non-vacuity and the recorded counterexamples -/
 
 -- "123.000456"
